@@ -213,7 +213,8 @@ package tracing
 // (inclusion–exclusion over interval intersections) for len(tasks) <= 3 — a BOUNDED stand-in, labelled so.
 // The loop invariants describe exactly what the code computes for up to three tasks (which task is the "leader" of a
 // group, which tasks it absorbs, the hull of the group), so every state the solver considers at a loop head is a
-// reachable one and a counterexample to the postcondition is a real run.
+// reachable one and a counterexample to the postcondition is a real run.  (Before fix 476a2936 the n3 clause failed
+// with chained intervals such as [0,2],[1,4],[3,5]; selftest canary C34_prefix_busy_leader_only restores that code.)
 
 //@ func c34S(ts, k) = int(ts[k].start)
 //@ func c34E(ts, k) = int(ts[k].end)
@@ -259,11 +260,12 @@ package tracing
 //@   ensures len(tasks) == 3 ==> int(result) == c34Union3(tasks)
 //@   label C34.busy.union.inputs.unchanged
 //@   ensures c34Stable(tasks, 0) && c34Stable(tasks, 1) && c34Stable(tasks, 2)
-//@   assigns nothing
-// No `assigns` clause on purpose: with `assigns nothing` every frame obligation of this function discharges as well, but
-// the engine then adds quantified frame axioms at the loop heads, under which no solver produces a model for the failing
-// n3 clause (it comes back `unknown`); without them a counterexample (before the fix: chained intervals) is found in about 1 s.  The
-// frame that matters — the task objects are not modified — is the explicit postcondition above.
+// Frame: the assigns clause below names whole heap arrays (all taskTimeStartEnd fields, all map[int]bool maps) instead of
+// `assigns nothing`.  `assigns nothing` also verifies (every frame obligation discharges), but the engine then adds
+// quantified frame axioms at the loop heads under which no solver can produce a model, so a broken loop body comes
+// back `unknown` instead of `failed`.  What callers need — the task objects are not modified — is the explicit
+// postcondition above; the writes themselves only hit the fresh coveredMask and the local extTime.
+//@   assigns key("O|tracing.taskTimeStartEnd|"), key("M|map[int]bool|")
 //@   label C34.busy.inv.outer.shape
 //@   loop 0: invariant -1 <= rangeindex && rangeindex < len(tasks) && coveredMask != nil && fresh(coveredMask)
 //@   label C34.busy.inv.outer.covered
@@ -345,5 +347,4 @@ package tracing
 //   ("call to function value has no contract": whole heap havocked, frame obligation fails).  The EndTask/AddTaskTag
 //   contracts above therefore take "the task is tracked" as `id in t.inflightTasks`.
 // * (*BusyTimeTracer).collapse / EndTask / TerminateAllTasks: collapse calls taskBusyTime, whose contract is bounded
-//   (len <= 3) and carries no assigns clause (see there), so a caller could only be verified for lists of at most three
-//   tasks and loses the heap at the call.
+//   (len <= 3) with a coarse frame (see there), so a caller could only be verified for lists of at most three tasks.
